@@ -195,3 +195,14 @@ def get_dynamic_evaluate_fn() -> Optional[Callable[[HyperValue], Any]]:
   return utils.thread_local_get(
       _TLS_KEY_DYNAMIC_EVALUATE_FN, _global_dynamic_evaluate_fn
   )
+
+
+def has_thread_local_dynamic_evaluate_fn() -> bool:
+  """Returns True if current thread has its own dynamic evaluate function."""
+  return utils.thread_local_has(_TLS_KEY_DYNAMIC_EVALUATE_FN)
+
+
+def clear_thread_local_dynamic_evaluate_fn() -> None:
+  """Removes the dynamic evaluate function of current thread, if any."""
+  if utils.thread_local_has(_TLS_KEY_DYNAMIC_EVALUATE_FN):
+    utils.thread_local_del(_TLS_KEY_DYNAMIC_EVALUATE_FN)
